@@ -36,6 +36,8 @@ SHAPES = {
     "empty registries": dict(decomps={}, fixed={}),
     "one operator": dict(decomps={"opA": ["r1"]}, fixed={}),
     "two operators, one fixed": dict(decomps={"opA": ["r1", "r2"], "opB": ["r3"]}, fixed={"opA": "r2"}),
+    # an entry that a mere look-up on the defaultdict created (independent seed C66_1: empty collections must be copied too)
+    "an operator with an empty entry": dict(decomps={"opA": [], "opB": ["r1"]}, fixed={}),
 }
 
 
